@@ -4,8 +4,11 @@ PROP = dict(
     level="model_checking",
     technique="TLA+ spec Collector.tla model-checked by TLC (exhaustive, small bounds); every generated transition replayed into a real InMemCollector under a fake clock with hook-event barriers (transition tour)",
     design_ref="DESIGN.md section 5 C04, Appendix A",
-    level_text='Invariant RatesCompose (forwarded rate = max(client,1) x trace rate, final_sample_rate = that product, original_sample_rate = nonzero client rate) for client rates {absent/0,1,3} x sampler rates {2,3} on the on-time, late (rate from the remembered decision) and stress-relief paths; replayed on the real collector comparing SampleRate and both meta fields of every forwarded span.',
+    level_text='Invariant RatesCompose (forwarded rate = max(client,1) x trace rate, final_sample_rate = that product, original_sample_rate = nonzero client rate) for client rates {absent/0,1,3} x sampler rates {2,3} on the on-time, late (rate from the remembered decision) and stress-relief paths; replayed on the real collector comparing SampleRate and both meta fields of every forwarded span; a second pass replays the same graph with every span body already carrying meta.refinery.original_sample_rate / final_sample_rate (relayed or re-ingested spans): the composition must not depend on body contents.',
     level_note="Bounded (1-2 workers, 1-3 traces, <=3 spans, horizon of a few SendTicker ticks; one model tick = one SendTicker period). Worker steps are atomic in the transition-tour binding (hook-event barrier after each step; sender drained), so only sequential schedules are forced here; really concurrent schedules are covered by the recorded-trace stage where present. Decision memory is sized so nothing is evicted (eviction is C31's subject). Sampler = real DeterministicSampler with trace IDs chosen by hash to realise the model's verdicts. Trusted: clockwork fake clock, the harness's recording Transmission, the guarded hooks (collect/verif_on.go).",
     assumptions=["stable membership, no stress toggling while buffered (as the property states)", "decision memory large enough that nothing is evicted", "bounded model: see level_note"],
-    stages=[dict(kind="walk", name="rates", module="MCCollectorRates", pkg="collect", test="TestVerifCollector", harness=["collect/collector_test.go"], cfg={"quick": "MC_Collector_rates_q.cfg", "thorough": "MC_Collector_rates.cfg"}, budget={"quick": 45, "thorough": 600}, maxwalk=40)],
+    stages=[dict(kind="walk", name="rates", module="MCCollectorRates", pkg="collect", test="TestVerifCollector", harness=["collect/collector_test.go"], cfg={"quick": "MC_Collector_rates_q.cfg", "thorough": "MC_Collector_rates.cfg"}, budget={"quick": 30, "thorough": 450}, maxwalk=40, share_graph=True),
+            # the same graph, every span BODY carrying pre-existing meta.refinery.original_sample_rate / final_sample_rate (a span relayed by an
+            # edge Refinery): the model quantifies over body contents, the client-supplied rate is the envelope's
+            dict(kind="walk", name="rates-relayed", module="MCCollectorRates", pkg="collect", test="TestVerifCollector", harness=["collect/collector_test.go"], cfg={"quick": "MC_Collector_rates_q.cfg", "thorough": "MC_Collector_rates.cfg"}, budget={"quick": 20, "thorough": 200}, maxwalk=40, env={"VERIF_RELAYED": "1"})],
 )
